@@ -11,7 +11,7 @@ EXPECT = {  # seed directory -> harnesses expected to catch it
  "C02-password-truncation-65533": ["s6_pwd_too_long"],
  "C02-login-password-trailing-whitespace-trimmed": ["s3_client_login_start_pw2", "w3_client_login_finish_default_ids"],
  "C03-client-mac-truncated-verify": ["c03_server_finish_exact"],
- "C04-server-mac-truncated-verify": ["s10w_generate_ke3_ctx0_default_ids"],
+ "C04-server-mac-truncated-verify": ["s10p_generate_ke3_ctx0_default_ids"],
  "C05-empty-identity-as-absent": ["s12_identifiers_defaulting"],
  "C05-prefix-high-byte-cleared": ["s12_input_from_all_lengths"],
  "C06-envelope-tag-not-verified": ["s9_open_raw_exact"],
